@@ -850,6 +850,36 @@ fn c18(r: &Runner) {
                 }
             }
         }
+        // rounding thresholds at the top of each float range: max finite, the midpoint T to 2^emax beyond which
+        // only +inf is right, and T +- 2^j for every j (double-rounding and overflow-threshold slips live here)
+        for (p, emax) in [(24usize, 128usize), (53, 1024)] {
+            if bits < emax - p {
+                continue;
+            }
+            let maxf = (pow2(p) - 1u32) << (emax - p);
+            let t = &maxf + pow2(emax - p - 1);
+            let mut push = |v: BigUint| {
+                if v < m {
+                    vals.push(v);
+                }
+            };
+            push(maxf.clone());
+            push(&maxf - 1u32);
+            push(&maxf + 1u32);
+            push(t.clone());
+            for j in 0..(emax - p) {
+                push(&t - pow2(j));
+                push(&t + pow2(j));
+                push(&t - pow2(j) - 1u32);
+            }
+            // the same at every lower binade top: (2^p - 1) * 2^k + half an ulp +- 1
+            for k in (1..emax - p).step_by(7) {
+                let hf = ((pow2(p) - 1u32) << k) + pow2(k - 1);
+                push(&hf - 1u32);
+                push(hf.clone());
+                push(&hf + 1u32);
+            }
+        }
         vals.sort();
         vals.dedup();
         let lv: Vec<Limbs> = vals.iter().map(|v| to_limbs(v, bits)).collect();
